@@ -121,10 +121,13 @@ class RawPayloadDecoder(AbstractSimplePayloadDecoder):
                     yield component
 
                 elif component is eoo.endOfOctets:
+                    if value is noValue:
+                        raise error.PyAsn1Error(
+                            'No value under explicit tag %s' % (tagSet,))
+
                     # the value goes last: whoever drives this generator
                     # takes the last item for the result
-                    if value is not noValue:
-                        yield value
+                    yield value
 
                     return
 
